@@ -337,7 +337,9 @@ func execSS(p *Plan, run *core.Run) {
 			return
 		}
 		s := secretsharing.Share{ID: shares[h-1].ID.Copy(), Value: shares[h-1].Value.Copy()}
-		if h == p.Corrupt && !(p.CField == "id" && p.T == 0) { // with t = 0 every id carries the same value
+		// with t = 0 every id carries the same value; so it does when the dealer's entropy device
+		// is stuck at zero (the polynomial is constant): an altered id then verifies, rightly
+		if h == p.Corrupt && !(p.CField == "id" && (p.T == 0 || p.EFault == "stuck")) {
 			field := s.Value
 			if p.CField == "id" {
 				field = s.ID
